@@ -9,6 +9,7 @@ import (
 	"flag"
 	"fmt"
 	"os"
+	"regexp"
 	"sort"
 	"time"
 )
@@ -58,6 +59,7 @@ type summary struct {
 	WallS       float64        `json:"wall_s"`
 	Samples     []any          `json:"samples,omitempty"`
 	Foreign     map[string]int `json:"foreign_oracle_hits,omitempty"`
+	KnownHits   map[string]int `json:"known_hits,omitempty"`
 }
 
 func main() {
@@ -69,6 +71,7 @@ func main() {
 	dump := flag.Bool("dump", false, "print the scenario of run -from and exit")
 	verbose := flag.Bool("v", false, "keep and print the schedule log")
 	perRun := flag.Bool("trace", false, "print one line per run: index, interleaving id, steps (determinism self-test)")
+	knownPath := flag.String("known", "", "known_findings.json: violations matching a listed finding are counted, not reported")
 	sets := flag.String("sets", "", "file receiving the interleaving ids of non-trivial runs (raw little-endian uint64)")
 	flag.Parse()
 
@@ -80,7 +83,8 @@ func main() {
 		fmt.Println(string(b))
 		return
 	}
-	sum := &summary{Prop: *prop, From: *from, N: *n, Probes: map[string]int{}, Faults: map[string]int{}, Reasons: map[string]int{}, Foreign: map[string]int{}}
+	known := loadKnown(*knownPath, *prop)
+	sum := &summary{KnownHits: map[string]int{}, Prop: *prop, From: *from, N: *n, Probes: map[string]int{}, Faults: map[string]int{}, Reasons: map[string]int{}, Foreign: map[string]int{}}
 	hashes := map[uint64]struct{}{}
 	states := map[uint64]struct{}{}
 	start := time.Now()
@@ -126,6 +130,10 @@ func main() {
 		var mine []Violation
 		for _, v := range res.Viol {
 			if owns(*prop, v.Oracle) {
+				if k := known.match(v); k != "" {
+					sum.KnownHits[k]++
+					continue
+				}
 				mine = append(mine, v)
 			} else {
 				sum.Foreign[v.Oracle]++
@@ -203,4 +211,53 @@ func doReplay(path string, verbose bool) int {
 		return 1
 	}
 	return 0
+}
+
+// knownFindings is /verif/known_findings.json: genuine defects of the tree
+// that are recorded rather than repaired. A violation is suppressed only when
+// property, oracle and the message pattern all match; the file is never
+// written at run time.
+type knownFinding struct {
+	Property string `json:"property"`
+	Oracle   string `json:"oracle"`
+	Match    string `json:"match"` // regular expression over the violation message
+	What     string `json:"what"`
+	re       *regexp.Regexp
+}
+
+type knownSet []knownFinding
+
+func loadKnown(path, prop string) knownSet {
+	if path == "" {
+		return nil
+	}
+	b, err := os.ReadFile(path)
+	if err != nil {
+		return nil
+	}
+	var f struct {
+		Known []knownFinding `json:"known"`
+	}
+	if err := json.Unmarshal(b, &f); err != nil {
+		fmt.Fprintln(os.Stderr, "bad known_findings.json:", err)
+		os.Exit(2)
+	}
+	var out knownSet
+	for _, k := range f.Known {
+		if k.Property != prop {
+			continue
+		}
+		k.re = regexp.MustCompile(k.Match)
+		out = append(out, k)
+	}
+	return out
+}
+
+func (ks knownSet) match(v Violation) string {
+	for _, k := range ks {
+		if k.Oracle == v.Oracle && k.re.MatchString(v.Msg) {
+			return k.What
+		}
+	}
+	return ""
 }
